@@ -6,29 +6,34 @@ Property theorems only.  `run es` replays an arbitrary history (any length, any 
 on the model of `pkg/status` + `missing-approve`; `needsApprove` is the specification
 (latest conclusive observation), `listed` is what `missing-approve` prints.
 
-* `missing_sound` (the listing half as stated) is **false** of the unchanged code:
-  `missing_sound_counterexample` (a failed approve erases a newer successful approve and the
-  file falls back to a stale UPTODATE compare) and `missing_sound_removed_counterexample`
-  (observed policy deleted, current code empty).  What is proved: `missing_sound_partial`.
-* `missing_omits` is **false** as stated: `missing_omits_counterexample`; proved:
-  `missing_omits_partial`.
+The model mirrors the REPAIRED `status.SetApprove` (/repo commit 3b5699b): a failed approve
+first saves a successful approve that is newer than the compare record into the compare slot.
+Former findings F-C13 (a failed approve made the file forget a successful approve: device listed
+although nothing is missing) and F-C13s (… and fall back to a stale UPTODATE compare: device NOT
+listed although it needs approve) are repaired; regression theorems
+`failed_approve_keeps_ok_record`, `failed_approve_after_revert_listed`.
+
+* `missing_sound`: the FULL listing half; the only hypothesis is that the current code is not
+  empty in all six files.  That hypothesis is needed: `missing_sound_removed_counterexample`
+  (observed policy deleted, current code all-empty; finding F-C13r stays).
+* `missing_omits_partial`: the omission half for histories in which, since the latest conclusive
+  observation, no compare ended with errors and the status file was not damaged (ghost flag of
+  `runC`; a failed approve no longer disturbs it).  That hypothesis is needed:
+  `missing_omits_needs_clean`.
+* `inv_step`, `j_step`: the invariants behind both halves hold for EVERY event.
 -/
 namespace NA.C13
 
-theorem inv_run (es : List (Event × Nat)) (w : World) (h : Inv w) (hs : FailSafe es w) :
-    Inv (es.foldl step w) := by
+theorem inv_run (es : List (Event × Nat)) (w : World) (h : Inv w) : Inv (es.foldl step w) := by
   induction es generalizing w with
   | nil => exact h
-  | cons e es ih => exact ih _ (inv_step w e h hs.cons.1) hs.cons.2
+  | cons e es ih => exact ih _ (inv_step w e h)
 
-/-- Listing half, for every history in which no failed approve overwrites a successful
-approve that is newer than an UPTODATE compare record, and whose current code is not empty
-in all six files: a device whose latest conclusive observation does not establish the current
-code is printed. -/
-theorem missing_sound_partial (es : List (Event × Nat)) (hsafe : FailSafe es {})
-    (hne : (run es).curCode ≠ zeros) :
+/-- Listing half, for EVERY history whose current code is not empty in all six files: a device
+whose latest conclusive observation does not establish the current code is printed. -/
+theorem missing_sound (es : List (Event × Nat)) (hne : (run es).curCode ≠ zeros) :
     (run es).needsApprove = true → (run es).listed = true := by
-  have hinv := inv_run es {} inv_init hsafe
+  have hinv := inv_run es {} inv_init
   unfold run at *
   generalize es.foldl step {} = w at *
   intro hneeds
@@ -56,18 +61,10 @@ theorem missing_sound_partial (es : List (Event × Nat)) (hsafe : FailSafe es {}
           simpa [hd, hr, this] using hl'
     simp [World.needsApprove, hobs, hcode] at hneeds
 
-/-- The listing half as stated (no hypothesis on failed approves) is false: policy 1 = code X,
-compare UPTODATE; policy 2 = code Y, approve OK; policy 3 = code X again, approve FAILED.
-The device carries Y, current is X, and missing-approve does not list it. -/
-theorem missing_sound_counterexample :
-    ∃ es, (run es).curCode ≠ zeros ∧ (run es).needsApprove = true ∧ (run es).listed = false :=
-  ⟨[(.newPolicy [1,0,0,0,0,0], 0), (.approveOk, 0), (.compare, 0),
-    (.newPolicy [2,0,0,0,0,0], 0), (.approveOk, 0),
-    (.newPolicy [1,0,0,0,0,0], 0), (.approveFailed, 0)], by decide⟩
-
-/-- … and it is false when the observed policy was deleted and the current code is empty. -/
+/-- The hypothesis of `missing_sound` is needed: the observed policy was deleted and the current
+code is empty in all six files (`readFile` of a missing file equals an empty file). -/
 theorem missing_sound_removed_counterexample :
-    ∃ es, FailSafe es {} ∧ (run es).needsApprove = true ∧ (run es).listed = false :=
+    ∃ es, (run es).curCode = zeros ∧ (run es).needsApprove = true ∧ (run es).listed = false :=
   ⟨[(.newPolicy [1,0,0,0,0,0], 0), (.approveOk, 0), (.newPolicy zeros, 0), (.remove 1, 0)],
    by decide⟩
 
@@ -80,9 +77,9 @@ theorem j_run (es : List (Event × Nat)) (w : World) (cl : Bool)
     exact ih _ _ (times_step w e ht) (cmpOK_step w e hc) (j_step w cl e ht hc hj)
 
 /-- Omission half, for histories in which, since the latest conclusive observation, no compare
-ended with errors, the status file was not damaged, and no failed approve overwrote a
-successful approve that the file needs (ghost flag of `runC`): if that observation establishes
-the current code and the observed policy is still on disk, the device is not printed. -/
+ended with errors and the status file was not damaged (ghost flag of `runC`): if that
+observation establishes the current code and the observed policy is still on disk, the device
+is not printed. -/
 theorem missing_omits_partial (es : List (Event × Nat)) (c : Code) (p : Nat)
     (hclean : (runC es ({}, true)).2 = true)
     (hobs : (run es).obs = .carries c p) (heq : c = (run es).curCode)
@@ -100,21 +97,46 @@ theorem missing_omits_partial (es : List (Event × Nat)) (c : Code) (p : Nat)
   · have : ¬ (run es).cur < p := by omega
     simp [hc, readPolicy, World.disk, h2, hdisk, this, ← h4, heq]
 
-/-- The omission half as stated is false: approve OK then approve FAILED for the same policy. -/
-theorem missing_omits_counterexample :
+/-- The hypothesis `hclean` is needed: after a damaged status file (approve OK, then the file is
+emptied) the device IS printed although the latest observation establishes the current code. -/
+theorem missing_omits_needs_clean :
     ∃ es c p, (run es).obs = .carries c p ∧ c = (run es).curCode ∧ p ∉ (run es).removed ∧
-      (run es).listed = true :=
-  ⟨[(.newPolicy [1,0,0,0,0,0], 0), (.approveOk, 0), (.approveFailed, 0)], [1,0,0,0,0,0], 1, by decide⟩
+      (runC es ({}, true)).2 = false ∧ (run es).listed = true :=
+  ⟨[(.newPolicy [1,0,0,0,0,0], 0), (.approveOk, 0), (.damage, 0)], [1,0,0,0,0,0], 1, by decide⟩
+
+/-- … and likewise after a compare that ended with errors. -/
+example : ∃ es c p, (run es).obs = .carries c p ∧ c = (run es).curCode ∧ p ∉ (run es).removed ∧
+      (runC es ({}, true)).2 = false ∧ (run es).listed = true :=
+  ⟨[(.newPolicy [1,0,0,0,0,0], 0), (.approveOk, 0), (.compareErr, 0)], [1,0,0,0,0,0], 1, by decide⟩
+
+/-! ## Regression: the two repaired findings -/
+
+/-- Former F-C13: approve OK, then approve FAILED for the same policy.  The successful approve is
+kept (in the compare slot) and the device is not printed. -/
+theorem failed_approve_keeps_ok_record :
+    (run [(.newPolicy [1,0,0,0,0,0], 0), (.approveOk, 0), (.approveFailed, 0)]).listed = false := by
+  decide
+
+/-- Former F-C13s: policy 1 = code X, compare UPTODATE; policy 2 = code Y, approve OK;
+policy 3 = code X again, approve FAILED.  The device carries Y, current is X: it is printed
+(the unrepaired code fell back to the stale compare of policy 1 and did not print it). -/
+theorem failed_approve_after_revert_listed :
+    (run [(.newPolicy [1,0,0,0,0,0], 0), (.approveOk, 0), (.compare, 0),
+      (.newPolicy [2,0,0,0,0,0], 0), (.approveOk, 0),
+      (.newPolicy [1,0,0,0,0,0], 0), (.approveFailed, 0)]).listed = true := by
+  decide
 
 /-! Non-vacuity: histories with failed approves, sticky DIFF, drift and removal meet the hypotheses. -/
-example : FailSafe [(.newPolicy [1,0,0,0,0,0], 0), (.compare, 3), (.approveFailed, 0), (.approveOk, 1),
+example : (run [(.newPolicy [1,0,0,0,0,0], 0), (.compare, 3), (.approveFailed, 0), (.approveOk, 1),
     (.drift [7,0,0,0,0,0], 0), (.compare, 0), (.compare, 0), (.newPolicy [2,0,0,0,0,0], 0),
-    (.approveFailed, 0), (.remove 1, 0)] {} := by decide
-example : (runC [(.newPolicy [1,0,0,0,0,0], 0), (.compare, 3), (.approveFailed, 0),
-    (.newPolicy [1,0,0,0,0,0], 2), (.bzip 1, 0)] ({}, true)).2 = true := by decide
+    (.approveFailed, 0), (.remove 1, 0)]).curCode ≠ zeros := by decide
+example : (runC [(.newPolicy [1,0,0,0,0,0], 0), (.approveOk, 3), (.approveFailed, 0),
+    (.newPolicy [1,0,0,0,0,0], 2), (.approveFailed, 0), (.bzip 1, 0)] ({}, true)).2 = true := by decide
 
 def obligations : List Lean.Name := [
-  ``missing_sound_partial, ``missing_sound_counterexample, ``missing_sound_removed_counterexample,
-  ``missing_omits_partial, ``missing_omits_counterexample, ``inv_step, ``j_step]
+  ``missing_sound, ``missing_sound_removed_counterexample,
+  ``missing_omits_partial, ``missing_omits_needs_clean,
+  ``failed_approve_keeps_ok_record, ``failed_approve_after_revert_listed,
+  ``inv_step, ``j_step]
 
 end NA.C13
